@@ -26,6 +26,40 @@ def ecc():
 # ---------------------------------------------------------------------------------------------------------
 # real code
 
+class Hang(Exception):
+    pass
+
+
+class alarm:
+    """`with alarm(t, what):` raises Hang if the block runs longer than t seconds (a changed helper loop or a
+    comb loop that never settles must end as a reported disagreement, not as an endless run).  Nests: the outer
+    timer is re-armed with its remaining time on exit."""
+    def __init__(self, seconds, what=""):
+        self.seconds = seconds
+        self.what = what
+
+    def _fire(self, *a):
+        raise Hang("no result within %gs: %s" % (self.seconds, self.what))
+
+    def __enter__(self):
+        import signal
+        self.t0 = time.time()
+        self.old_handler = signal.signal(signal.SIGALRM, self._fire)
+        self.old_left = signal.setitimer(signal.ITIMER_REAL, self.seconds)[0]
+        return self
+
+    def __exit__(self, *exc):
+        import signal
+        signal.setitimer(signal.ITIMER_REAL, 0)
+        signal.signal(signal.SIGALRM, self.old_handler)
+        if self.old_left:
+            signal.setitimer(signal.ITIMER_REAL, max(0.01, self.old_left - (time.time() - self.t0)))
+        return False
+
+
+CURRENT = {}     # last input handed to the real code (reported when a job dies or hangs)
+
+
 class CombEval:
     def __init__(self, module, ins, outs):
         self.module = module
@@ -37,6 +71,7 @@ class CombEval:
     def eval(self, *vals, plain=False):
         n = self.n
         ev = n.ev
+        CURRENT["inputs"] = list(vals)
         for s, v in zip(self.ins, vals):
             n.set(s, v)
         if not plain:
@@ -49,16 +84,29 @@ class CombEval:
 
 
 class RealEcc:
-    """Encoder + decoder netlists of one width."""
+    """Encoder + decoder netlists of one width.
+
+    Every range the harness enumerates comes from the constructor argument k: `n` is the Hamming-bound code length
+    for k (ref_m_n, independent of ecc.py), never `compute_m_n` or a signal width of the implementation; flip
+    positions / decoder words range over `nbits` = n+1 widened (never narrowed) to the implementation's ports, so a
+    shrunk or mis-sized signal cannot hide the bits it drops.  The model always receives the unmasked value."""
     def __init__(self, k):
         E = ecc()
         self.k = k
-        self.m, self.n = E.compute_m_n(k)
-        enc = E.ECCEncoder(k)
-        dec = E.ECCDecoder(k)
-        self.widths = (len(enc.i), len(enc.o), len(dec.i), len(dec.o), len(dec.sec), len(dec.ded), len(dec.enable))
-        self.enc = CombEval(enc, [enc.i], [enc.o])
-        self.dec = CombEval(dec, [dec.enable, dec.i], [dec.o, dec.sec, dec.ded])
+        self.m, self.n = ref_m_n(k)
+        CURRENT.clear()
+        CURRENT.update({"k": k, "doing": "elaborating ECCEncoder/ECCDecoder(%d)" % k})
+        with alarm(120, "elaborating ECCEncoder/ECCDecoder(%d)" % k):
+            self.impl_mn = tuple(E.compute_m_n(k))
+            enc = E.ECCEncoder(k)
+            dec = E.ECCDecoder(k)
+            self.widths = (len(enc.i), len(enc.o), len(dec.i), len(dec.o), len(dec.sec), len(dec.ded), len(dec.enable))
+            self.want_widths = (k, self.n + 1, self.n + 1, k, 1, 1, 1)
+            self.n_impl = len(enc.o) - 1
+            self.nbits = max(self.n + 1, len(enc.o), len(dec.i))
+            self.enc = CombEval(enc, [enc.i], [enc.o])
+            self.dec = CombEval(dec, [dec.enable, dec.i], [dec.o, dec.sec, dec.ded])
+        CURRENT["doing"] = "evaluating the netlists of width k=%d (inputs: encoder [data] / decoder [enable, word])" % k
 
     def encode(self, d):
         return self.enc.eval(d)[0]
@@ -71,7 +119,7 @@ class RealEcc:
         other = RealEcc(self.k)
         for _ in range(count):
             d = rng.getrandbits(self.k)
-            w = rng.getrandbits(self.n + 1)
+            w = rng.getrandbits(self.nbits)
             en = rng.getrandbits(1)
             if self.enc.eval(d) != other.enc.eval(d, plain=True):
                 return "encoder: pre-conditioned settle differs from plain settle (k=%d d=%d)" % (self.k, d)
@@ -221,16 +269,17 @@ def job_small(lean, rng, k, monitor_only=False):
     r = _build(k, res)
     if r is None:
         return res
-    n = r.n
+    n, nb = r.n_impl, r.nbits
     msg = r.selfcheck(rng)
     if msg:
         res["dis"].append(_mk_dis("harness-selfcheck", k, msg))
-    if r.widths != (k, n + 1, n + 1, k, 1, 1, 1):
-        res["dis"].append(_mk_dis("correspondence", k, "port widths %r, model has (k,n+1,n+1,k,1,1,1) with n=%d" % (r.widths, n)))
+    if r.widths != r.want_widths or r.impl_mn != (r.m, r.n):
+        res["dis"].append(_mk_dis("correspondence", k, "port widths (enc.i, enc.o, dec.i, dec.o, sec, ded, enable) = %r and "
+                                  "compute_m_n = %r; model has %r and %r" % (r.widths, r.impl_mn, r.want_widths, (r.m, r.n))))
     cws = [r.encode(d) for d in range(1 << k)]
     dec = {}
     for en in (0, 1):
-        for w in range(1 << (n + 1)):
+        for w in range(1 << nb):
             dec[(en, w)] = r.decode(en, w)
     if not monitor_only:
         ans = lean.call_batch(["enc %d %d" % (k, d) for d in range(1 << k)])
@@ -254,12 +303,12 @@ def job_small(lean, rng, k, monitor_only=False):
     # property oracle on the real code
     viol = 0
     for d in range(1 << k):
-        for flips in all_flip_sets(n + 1):
+        for flips in all_flip_sets(nb):
             w = cws[d]
             for j in flips:
                 w ^= 1 << j
             for en in (1, 0):
-                out = dec[(en, w & ((1 << (n + 1)) - 1))]
+                out = dec[(en, w)]
                 res["hist"]["oracle %d-flip en=%d" % (len(flips), en)] = res["hist"].get("oracle %d-flip en=%d" % (len(flips), en), 0) + 1
                 m = oracle(k, n, d, cws[d], flips, en, out)
                 if m:
@@ -281,12 +330,13 @@ def job_large(lean, rng, k, words, pairs, monitor_only=False, garbage=32, fixed=
     r = _build(k, res)
     if r is None:
         return res
-    n = r.n
+    n, nb = r.n_impl, r.nbits
     msg = r.selfcheck(rng, 1) if selfcheck else None
     if msg:
         res["dis"].append(_mk_dis("harness-selfcheck", k, msg))
-    if r.widths != (k, n + 1, n + 1, k, 1, 1, 1):
-        res["dis"].append(_mk_dis("correspondence", k, "port widths %r, model has (k,n+1,n+1,k,1,1,1) with n=%d" % (r.widths, n)))
+    if r.widths != r.want_widths or r.impl_mn != (r.m, r.n):
+        res["dis"].append(_mk_dis("correspondence", k, "port widths (enc.i, enc.o, dec.i, dec.o, sec, ded, enable) = %r and "
+                                  "compute_m_n = %r; model has %r and %r" % (r.widths, r.impl_mn, r.want_widths, (r.m, r.n))))
     if fixed == "zero":
         datas = [0]
     elif fixed == "ones":
@@ -301,18 +351,18 @@ def job_large(lean, rng, k, words, pairs, monitor_only=False, garbage=32, fixed=
         cases = []   # (flips, en)
         cases.append(((), 1))
         cases.append(((), 0))
-        for j in range(n + 1):
+        for j in range(nb):
             cases.append(((j,), 1))
-        allpairs = [(a, b) for a in range(n + 1) for b in range(a + 1, n + 1)]
+        allpairs = [(a, b) for a in range(nb) for b in range(a + 1, nb)]
         if pairs is None:
             sel = allpairs
         else:
             sel = rng.sample(allpairs, min(pairs, len(allpairs)))
             # always include pairs with the parity bit and adjacent / far-apart positions
-            sel += [(0, 1), (0, n), (1, 2), (1, n), (n - 1, n)]
+            sel += [(0, 1), (0, nb - 1), (1, 2), (1, nb - 1), (nb - 2, nb - 1)]
         for p in sel:
             cases.append((p, 1))
-        for j in rng.sample(range(n + 1), min(8, n + 1)):
+        for j in rng.sample(range(nb), min(8, nb)):
             cases.append(((j,), 0))
         for p in rng.sample(allpairs, min(8, len(allpairs))):
             cases.append((p, 0))
@@ -353,7 +403,7 @@ def job_large(lean, rng, k, words, pairs, monitor_only=False, garbage=32, fixed=
                                    "decoder_out(o,sec,ded)": list(outs[5])})
     # arbitrary (non-code) input words: ties the decoder model outside the <=2-flip neighbourhood
     if not monitor_only and garbage:
-        ws = [(rng.getrandbits(1), rng.getrandbits(n + 1)) for _ in range(garbage)]
+        ws = [(rng.getrandbits(1), rng.getrandbits(nb)) for _ in range(garbage)]
         outs = [r.decode(en, w) for en, w in ws]
         ans = lean.call_batch(["dec %d %d %d" % (k, en, w) for en, w in ws])
         for (en, w), o, a in zip(ws, outs, ans):
@@ -383,7 +433,7 @@ def job_corpus(lean, rng, cases, monitor_only=False):
         out = r.decode(en, w)
         res["cases"] += 1
         res["nontrivial"] += 1 if (out[1] or out[2]) else 0
-        m = oracle(k, r.n, d, cw, flips, en, out)
+        m = oracle(k, r.n_impl, d, cw, flips, en, out)
         if m:
             res["dis"].append(_mk_dis("monitor", k, m, data=d, flips=list(flips), enable=en, codeword=cw, out=list(out),
                                       corpus=c.get("corpus")))
@@ -392,6 +442,70 @@ def job_corpus(lean, rng, cases, monitor_only=False):
             if a[0] != str(cw) or a[1] != "%d %d %d" % out:
                 res["dis"].append(_mk_dis("correspondence", k, "corpus case", data=d, flips=list(flips), enable=en,
                                           impl=[cw, list(out)], model=a, corpus=c.get("corpus")))
+    return res
+
+
+def job_loopback(lean, rng, k, words, monitor_only=False):
+    """Encoder and decoder used the way the repository's test bench and the memory controllers use them: both as
+    submodules of ONE module, `decoder.i = encoder.o ^ flip`, evaluated as a single netlist (submodule collection,
+    two SECDED users sharing one fragment).  `flip` is sized from k (Hamming bound), not from a signal width."""
+    from migen import Module, Signal
+    res = {"name": "ecc k=%d loopback (encoder+decoder in one module)" % k, "cases": 0, "nontrivial": 0,
+           "exhaustive": False, "hist": {}, "samples": [], "dis": []}
+    E = ecc()
+    m, n = ref_m_n(k)
+    nb = n + 1
+    CURRENT.clear()
+    CURRENT.update({"k": k, "doing": "elaborating the encoder+decoder loopback module"})
+    try:
+        with alarm(120, "elaborating the loopback module for k=%d" % k):
+            class DUT(Module):
+                def __init__(self):
+                    self.flip = Signal(nb)
+                    self.submodules.encoder = E.ECCEncoder(k)
+                    self.submodules.decoder = E.ECCDecoder(k)
+                    self.comb += self.decoder.i.eq(self.encoder.o ^ self.flip)
+            dut = DUT()
+            ce = CombEval(dut, [dut.decoder.enable, dut.encoder.i, dut.flip],
+                          [dut.encoder.o, dut.decoder.o, dut.decoder.sec, dut.decoder.ded])
+    except Exception as e:
+        res["dis"].append(_mk_dis("elaboration", k, "loopback module of ECCEncoder/ECCDecoder(%d) raised %r" % (k, e)))
+        return res
+    CURRENT["doing"] = "evaluating the loopback netlist k=%d (inputs: [enable, data, flip mask])" % k
+    allpairs = [(a, b) for a in range(nb) for b in range(a + 1, nb)]
+    viol = 0
+    for d in [(1 << k) - 1] + [rng.getrandbits(k) for _ in range(words)]:
+        cases = [((), 1), ((), 0)] + [((j,), 1) for j in range(nb)] + [(p, 1) for p in rng.sample(allpairs, min(40, len(allpairs)))]
+        cases += [((rng.randrange(nb),), 0), (rng.choice(allpairs), 0)]
+        lines, outs = [], []
+        for flips, en in cases:
+            mask = 0
+            for j in flips:
+                mask |= 1 << j
+            cw, o, sec, ded = ce.eval(en, d, mask)
+            outs.append((cw, o, sec, ded))
+            key = "oracle %d-flip en=%d" % (len(flips), en)
+            res["hist"][key] = res["hist"].get(key, 0) + 1
+            msg = oracle(k, n, d, cw, flips, en, (o, sec, ded))
+            if msg:
+                viol += 1
+                if viol <= 2:
+                    res["dis"].append(_mk_dis("monitor", k, msg + " [loopback module]", data=d, flips=list(flips), enable=en,
+                                              codeword=cw, out=[o, sec, ded]))
+            if sec or ded:
+                res["nontrivial"] += 1
+            lines.append("dec %d %d %d" % (k, en, cw ^ mask))
+        if not monitor_only:
+            a0 = lean.call_batch(["enc %d %d" % (k, d)])[0]
+            ans = lean.call_batch(lines)
+            bad = 0
+            for (flips, en), (cw, o, sec, ded), a in zip(cases, outs, ans):
+                res["cases"] += 1
+                if a0 != str(cw) or a != "%d %d %d" % (o, sec, ded):
+                    bad += 1
+                    if bad <= 2:
+                        res["dis"].append(_mk_dis("correspondence", k, "loopback module", data=d, flips=list(flips), enable=en,
+                                                  impl=[cw, o, sec, ded], model=[a0, a]))
     return res
 
 
@@ -404,13 +518,29 @@ _INFO = None
 
 def _worker(idx):
     from leanproc import LeanDriver
-    seed, monitor_only = _INFO
+    seed, monitor_only, timeout = _INFO
     fn, args, kw = _JOBS[idx]
+    try:    # backstop against a changed helper loop that allocates without end
+        import resource
+        resource.setrlimit(resource.RLIMIT_AS, (6 << 30, 6 << 30))
+    except Exception:
+        pass
     rng = random.Random(seed * 7919 + idx * 104729 + 18)
     lean = None if monitor_only else LeanDriver("C18")
     t0 = time.time()
+    k = args[0] if isinstance(args[0], int) else None
     try:
-        res = fn(lean, rng, *args, monitor_only=monitor_only, **kw)
+        with alarm(timeout, "job %s%r" % (fn.__name__, args if k is not None else "")):
+            res = fn(lean, rng, *args, monitor_only=monitor_only, **kw)
+    except Exception as e:
+        # a hang (never-settling comb loop, endless helper loop) or a crash while driving a changed implementation
+        # is a reported disagreement carrying the last input handed to the real code, never a crash of the check
+        import traceback
+        kind = "timeout" if isinstance(e, Hang) else "exception"
+        res = {"name": "%s%r" % (fn.__name__, args if k is not None else ""), "cases": 0, "nontrivial": 0,
+               "exhaustive": False, "hist": {}, "samples": [],
+               "dis": [_mk_dis(kind, CURRENT.get("k", k), "%r while %s" % (e, CURRENT.get("doing", "running the job")),
+                               last_inputs=CURRENT.get("inputs"), where=traceback.format_exc().splitlines()[-3:])]}
     finally:
         if lean is not None:
             lean.quit()
@@ -418,12 +548,12 @@ def _worker(idx):
     return idx, res
 
 
-def run_pool(seed, jobs, monitor_only=False, procs=None):
+def run_pool(seed, jobs, monitor_only=False, procs=None, timeout=300):
     """jobs: list of (fn, args, kwargs).  Returns list of result dicts in job order."""
     global _JOBS, _INFO
     import multiprocessing as mp
     _JOBS = jobs
-    _INFO = (seed, monitor_only)
+    _INFO = (seed, monitor_only, timeout)
     procs = procs or min(len(jobs), int(os.environ.get("VERIF_PROCS", "0")) or (os.cpu_count() or 4))
     if procs <= 1 or len(jobs) <= 1:
         out = [_worker(i) for i in range(len(jobs))]
